@@ -5,6 +5,7 @@ mod ops;
 mod run;
 mod svc;
 mod loopback;
+mod irrand;
 mod util;
 
 use run::Tier;
@@ -22,6 +23,10 @@ fn main() {
                 eprintln!("extract failed: {}", e);
                 std::process::exit(2);
             }
+        }
+        Some("gen") => {
+            // child process of the C20 support runs: the library entry point
+            std::process::exit(ops::c20::gen_main(&args[2..]));
         }
         Some("run") => {
             let prop = args.get(2).cloned().unwrap_or_default();
@@ -55,6 +60,7 @@ fn main() {
                 "C19" => run::finish(ops::ep::cases("C19", seed, tier), &driver, &out, seed, tier, ops::ep::RULE_C19, serde_json::json!({})),
                 "C09" => run::finish(ops::ep::cases("C09", seed, tier), &driver, &out, seed, tier, ops::ep::RULE_C09, serde_json::json!({})),
                 "C04" => run::finish(ops::c04::cases(seed, tier), &driver, &out, seed, tier, ops::c04::RULE, serde_json::json!({})),
+                "C20" => run::finish(ops::c20::cases(seed, tier), &driver, &out, seed, tier, ops::c20::RULE, serde_json::json!({})),
                 "C14" => run::finish(ops::c14::cases(seed, tier), &driver, &out, seed, tier, ops::c14::RULE, serde_json::json!({})),
                 "C07" => run::finish(ops::c07::cases(seed, tier), &driver, &out, seed, tier, ops::c07::RULE, serde_json::json!({})),
                 _ => Err(format!("unknown property {}", prop)),
